@@ -841,7 +841,22 @@ def run_stress(req):
                         n += 1
         box["n"] = n
 
-    t = threading.Thread(target=spin, daemon=True)
+    def spin_churn():
+        # the frame's value-stack slots are taken by short-lived container objects as soon as the with blocks are left:
+        # a slot that is read a moment too late holds the address of a freed dict (3.9 / 3.10 keep what was popped)
+        box["frame"] = sys._getframe()
+        n = 0
+        while not stop.is_set():
+            with M(1):
+                with M(2), M(3):
+                    n += 1
+            x = (1, 2, {}, {})
+            del x
+            c = {}
+            del c
+        box["n"] = n
+
+    t = threading.Thread(target=spin_churn if req.get("variant") == "churn" else spin, daemon=True)
     sys.setswitchinterval(1e-6)
     obs = []
     done = rejected = 0
